@@ -662,6 +662,24 @@ func (g *Gen) genC15() {
 				}
 				kind, expectEq = "special-param-in-one", false
 			}
+		case 4, 5: // a shared parameter with a different value, lists of different lengths
+			if q.HasParams && q.Params != "" {
+				items := strings.Split(q.Params, ";")
+				k := r.N(len(items))
+				nv := strings.SplitN(items[k], "=", 2)
+				items[k] = nv[0] + "=" + "zz" + r.Alnum(1, 3)
+				var extra []string
+				for e := 0; e < r.N(4); e++ {
+					extra = append(extra, "y"+r.Alnum(2, 5)+"="+r.Alnum(1, 3))
+				}
+				if r.P(50) {
+					items = append(extra, items...)
+				} else {
+					items = append(items, extra...)
+				}
+				q.Params = strings.Join(items, ";")
+				kind, expectEq = "param-value-differs", false
+			}
 		case 3:
 			kind = "different"
 			for {
@@ -868,6 +886,10 @@ func (g *Gen) genC17() {
 			cuts = r.Cuts(text, len(text))
 		}
 		sess := parseSess(hd, text, 0, cuts, flags, false, "O")
+		if flags&8 == 0 {
+			// the list end (offset, verdict) must not depend on how the text was chunked
+			g.add(resumeCase("C17", hd, text, 0, r.Cuts(text, len(text)), flags, flags, "list-end-chunked"))
+		}
 		g.add(Case{Prop: "C17", Desc: []string{"token-params", "uri-params", "uri-headers"}[mode], Lines: []string{sess}, Check: func(out []string) string {
 			return protect(func() string {
 				bb := []byte(text)
@@ -1174,7 +1196,7 @@ func (g *Gen) genC19() {
 				name := r.HdrName(t)
 				val := r.genValue(t, false, method, &MsgSpec{sane: true})
 				if t == 5 {
-					val = "SIP/2.0/UDP " + r.Host() + ";branch=" + r.Pick("z9hG4bK", "") + r.Pick(r.Token(4, 12), "nashds8", "a.b-c", "deadbeef00112233") + r.Pick("", ";rport", ", SIP/2.0/TCP h2;branch=zz-9")
+					val = "SIP/2.0/UDP " + r.Host() + ";branch=" + r.Pick("z9hG4bK", "") + r.Pick(r.Token(4, 12), "nashds8", r.Alnum(3, 7), r.Alnum(3, 7), "a.b-c", "deadbeef00112233") + r.Pick("", "", ";rport", ", SIP/2.0/TCP h2;branch=zz-9")
 				}
 				hs = append(hs, sigHdr{t, name + ": " + val + "\r\n", true})
 			}
@@ -1224,15 +1246,32 @@ func (g *Gen) genC19() {
 				v = "SIP/2.0/TCP other;branch=z9hG4bK" + r.Pick("a.b.c", "x_y", "q+r")
 			}
 			if h.typ != 1 && h.typ != 2 && h.typ != 3 && h.typ != 4 {
-				pos := len(l)
-				if r.P(50) {
-					l = append(l, filler())
-					pos = len(l)
+				if r.P(60) { // a filler anywhere (the scan only stops early when it has seen no other header)
+					fp := r.N(len(l) + 1)
+					l = append(l[:fp], append([]sigHdr{filler()}, l[fp:]...)...)
 				}
-				_ = pos
-				l = append(l, sigHdr{h.typ, hdrNames[h.typ][0] + ": " + v + "\r\n", true})
+				// the repeat goes anywhere after the first occurrence
+				first := 0
+				for k, x := range l {
+					if x.typ == h.typ {
+						first = k
+						break
+					}
+				}
+				rp := first + 1 + r.N(len(l)-first)
+				rep := sigHdr{h.typ, hdrNames[h.typ][0] + ": " + v + "\r\n", true}
+				l = append(l[:rp], append([]sigHdr{rep}, l[rp:]...)...)
 				variants = append(variants, build(l))
 				vdesc = append(vdesc, fmt.Sprintf("type %d repeated later", h.typ))
+			}
+		}
+		for k, h := range hs { // an older via appended to the first Via header line (comma separated list)
+			if h.typ == 5 && !strings.Contains(h.raw, ",") {
+				l := append([]sigHdr{}, hs...)
+				l[k].raw = strings.TrimSuffix(h.raw, "\r\n") + r.Pick(",", ", ", " ,\r\n ") + "SIP/2.0/TCP older.example.com;branch=z9hG4bK" + r.Pick("o.l-d", "x_1", "p+q") + "\r\n"
+				variants = append(variants, build(l))
+				vdesc = append(vdesc, "older via appended to the first Via header")
+				break
 			}
 		}
 		{ // values of other headers changed
